@@ -221,6 +221,20 @@ theorem view_of_parts {whole pre body post : Stmt} {it : Expr} {lx lm : Nat}
     simp only
     exact ⟨by simp, by trivial, hm⟩
 
+theorem truthy_bool (b : Bool) : Val.truthy (.bool b) = b := rfl
+
+/-- the same, leaving the truth value of a symbolic value alone -/
+macro "view_eval'" : tactic => `(tactic|
+  (simp (config := { decide := true }) [exec, exec.execH, eval, builtin, ext, dictOfV, valuesV, upd, Val.same,
+     truthy_bool, excClass, assocGet_dictOfV, assocSet_dictOfV, missingV, List.map_map, Function.comp_def, *]))
+
+theorem obj999 : Val.obj 999 = missingV := rfl
+
+/-- for the loop body: values stay symbolic (`Val.same` on them is left to the hypotheses) -/
+macro "view_step_eval" : tactic => `(tactic|
+  (simp (config := { decide := true }) [exec, exec.execH, eval, builtin, ext, dictOfV, upd, truthy_bool, excClass,
+     assocGet_dictOfV, assocSet_dictOfV, obj999, *]))
+
 macro "view_eval" : tactic => `(tactic|
   (simp (config := { decide := true }) [exec, exec.execH, eval, builtin, ext, dictOfV, valuesV, upd, Val.same,
      Val.truthy, excClass, assocGet_dictOfV, assocSet_dictOfV, missingV, *]))
